@@ -629,6 +629,10 @@ impl<VM: VMBinding> GCWorkScheduler<VM> {
         let concurrent_work_scheduled = self.schedule_concurrent_packets();
         self.debug_assert_all_stw_buckets_closed();
 
+        #[cfg(mmtk_verif)]
+        crate::verif::events::emit(|| crate::verif::events::Ev::GcFinished {
+            worker: worker.ordinal,
+        });
         // Set to NotInGC after everything, and right before resuming mutators.
         mmtk.set_gc_status(GcStatus::NotInGC);
         <VM as VMBinding>::VMCollection::resume_mutators(worker.tls);
